@@ -24,7 +24,7 @@ fn opts() -> NodeOpts {
     }
 }
 
-pub const EXISTING: [&str; 8] = ["absent", "empty", "behind", "midreset-empty", "midreset-one", "ahead", "removed", "live"];
+pub const EXISTING: [&str; 10] = ["absent", "empty", "behind", "with-tombstones", "midreset-empty", "midreset-one", "midreset-tombstone", "ahead", "removed", "live"];
 
 fn kv(k: &str, ver: u64, st: u8) -> Op {
     Op::Kv { key: k.into(), value: if st == 1 { String::new() } else { format!("old-{k}{ver}") }, version: ver, status: st }
@@ -50,6 +50,15 @@ pub fn receiver(existing: &str) -> Node {
         "behind" => {
             n.cc.verif_process_message(hello(1));
             n.cc.verif_process_message(ack(vec![Op::Node { id: x, gc: 0, from: 0 }, kv("a", 1, 0), kv("b", 2, 0)]));
+        }
+        "with-tombstones" => {
+            // a live key, a tombstone for `c`, and a tombstone for a key no supplied state mentions
+            n.cc.verif_process_message(hello(1));
+            n.cc.verif_process_message(ack(vec![Op::Node { id: x, gc: 0, from: 0 }, kv("a", 1, 0), kv("c", 2, 1), kv("gone", 3, 1)]));
+        }
+        "midreset-tombstone" => {
+            n.cc.verif_process_message(hello(1));
+            n.cc.verif_process_message(ack(vec![Op::Node { id: x, gc: 2, from: 0 }, kv("a", 1, 0), kv("gone", 3, 1)]));
         }
         "midreset-empty" => {
             n.cc.verif_process_message(hello(1));
@@ -248,7 +257,14 @@ pub fn one_case(existing: &str, s: &Supplied, position: u8, t: &mut Tally) -> Op
     // is only demanded when the supplied state is one an honest source could hold: distinct
     // versions >= 1, none above the supplied max version.
     let consistent = s.kvs.iter().all(|(_, v, _)| *v >= 1 && *v <= s.mv) && s.kvs.iter().map(|k| k.1).collect::<std::collections::BTreeSet<_>>().len() == s.kvs.len();
-    if !consistent {
+    // ... and one that does not contradict what the copy already holds of the same owner: a shared
+    // key is not older in the supplied (newer) snapshot, and one version designates one key
+    let agrees_with_copy = before.as_ref().map(|b| {
+        b.2.iter().all(|(k, (ve, _, _))| {
+            s.kvs.iter().all(|(sk, sv, _)| if sk == k { sv >= ve } else { sv != ve })
+        })
+    }).unwrap_or(true);
+    if !consistent || !agrees_with_copy {
         t.inc("inconsistent_supplied_states");
         return None;
     }
@@ -290,7 +306,7 @@ pub fn one_case(existing: &str, s: &Supplied, position: u8, t: &mut Tally) -> Op
 pub fn run(tier: Tier, started: Instant) -> Vec<Part> {
     let vmax = tier.pick(4u64, 5u64);
     let mut part = Part::new(&format!("catchup/calls(versions 0..{vmax})"));
-    part.rule = format!("reset_node_state_if_update called on a real node for every existing copy in {{absent, empty, (0,2) with two keys, mid-reset (3,0), mid-reset (3,1), ahead (0,5), garbage collected, live}} x every supplied state (key sets over {{a (present in the copy), c (new)}} with versions 0..{vmax} and every status, max_version 0..={vmax}, last_gc_version 0..={vmax}, consistent or not) x position (alone, before a real handshake with a peer that is ahead, after it, between its SYN and SYN-ACK); oracle: no panic, (watermark, max version) not lowered, the copy is unchanged or its key set is the supplied one with the newer version of shared keys, a garbage collected member stays absent, the member does not become live; when the supplied state is internally consistent (distinct versions >= 1, none above its max version) gossip afterwards neither panics nor lowers a frontier; non-trivial = calls that replaced the key set");
+    part.rule = format!("reset_node_state_if_update called on a real node for every existing copy in {{absent, empty, (0,2) with two keys, mid-reset (3,0), mid-reset (3,1), ahead (0,5), garbage collected, live}} x every supplied state (key sets over {{a (present in the copy), c (new)}} with versions 0..{vmax} and every status, max_version 0..={vmax}, last_gc_version 0..={vmax}, consistent or not) x position (alone, before a real handshake with a peer that is ahead, after it, between its SYN and SYN-ACK); oracle: no panic, (watermark, max version) not lowered, the copy is unchanged or its key set is the supplied one with the newer version of shared keys, a garbage collected member stays absent, the member does not become live; when the supplied state is internally consistent (distinct versions >= 1, none above its max version) and does not contradict the copy (shared keys not older, one version = one key) gossip afterwards neither panics nor lowers a frontier; non-trivial = calls that replaced the key set");
     let supplied = all_supplied(vmax);
     part.bounds = json!({"existing_copies": EXISTING, "supplied_states": supplied.len(), "positions": 4});
     let deadline = started + Duration::from_secs(tier.pick(50, 1500));
